@@ -7,6 +7,7 @@ CONSTANTS
   FreshL <- FreshC
   Tags <- TagsC
   MaxDepth = 4
+  Prefill = FALSE
   Record = FALSE
   PreFix = FALSE
   Repeats = FALSE
@@ -14,4 +15,5 @@ VIEW view
 INVARIANT MapsExact
 INVARIANT OwnersExact
 INVARIANT HeldOnce
+PROPERTY NoCaptureStep
 CHECK_DEADLOCK FALSE
